@@ -699,6 +699,8 @@ class Solver:
             for key, value in new_args.items():
                 if key in update_dic:
                     new_args[key] = update_dic[key]
+                elif key in self.default_params:
+                    new_args[key] = self.default_params[key]
                 new_value = func(**new_args)
             start_dic.update({name: new_value})
         self.param_dic.update(self.default_params)
